@@ -1250,7 +1250,12 @@ def read_lines(view: PackageView, tm, tb, dids: DataIds, cells, tag, sub: Ctx | 
             try:
                 want = "ok " + " ".join(archive_style(view, tm, ids[(r, c)], r, c, dids))
             except Exception as e:  # noqa: BLE001
-                want = "err " + exc_name(e)
+                # the harness's own reader of the package does not cover this document's shape (old documents without the
+                # objects it looks for: issue-69.numbers raised StopIteration in the thorough tier): nothing to compare with -
+                # neither a violation nor a model line
+                sub.count("fixture cells whose style archives the harness's independent reader cannot follow (not compared)", 1)
+                out.pop()
+                continue
             if want != reply and not (want.startswith("err") and reply.startswith("err")):
                 sub.violation("style-read-differs-from-archives",
                               f"{(tag.get('fixture_read') or tag.get('fixture') or 'new document') if isinstance(tag, dict) else tag}: "
